@@ -150,7 +150,7 @@ def span_entry(draw, power_mode=None, eol=None, padding=None, max_length=None):
     hi = draw(st.sampled_from([0, 1, 3, 5]))
     return {
         'power_mode': draw(st.booleans()) if power_mode is None else power_mode,
-        'delta_power_range_db': [lo, hi, draw(st.sampled_from([0.5, 0.5, 1, 0.25]))],
+        'delta_power_range_db': [lo, hi, draw(st.sampled_from([0.5, 0.5, 1, 0.2]))],
         'max_fiber_lineic_loss_for_raman': draw(st.sampled_from([0.25, 0.2, 0.3])),
         'target_extended_gain': draw(st.sampled_from([2.5, 0, 1.0, 3.0])),
         'max_length': draw(st.sampled_from([150, 150, 100, 80, 120, 200])) if max_length is None else max_length,
@@ -160,7 +160,7 @@ def span_entry(draw, power_mode=None, eol=None, padding=None, max_length=None):
         'con_in': draw(st.sampled_from([0, 0, 0.5, 1.0])), 'con_out': draw(st.sampled_from([0, 0, 0.5, 1.0])),
         'span_loss_ref': draw(st.sampled_from([20.0, 20.0, 18.0, 25.0])),
         'power_slope': draw(st.sampled_from([0.3, 0.3, 0.2, 0.5, 0.0])),
-        'voa_margin': draw(st.sampled_from([1, 1, 0, 2])), 'voa_step': draw(st.sampled_from([0.5, 0.5, 1.0, 0.25])),
+        'voa_margin': draw(st.sampled_from([1, 1, 0, 2])), 'voa_step': draw(st.sampled_from([0.5, 0.5, 1.0, 0.2])),
     }
 
 
@@ -518,7 +518,10 @@ def topology(draw, eq_json, n=(2, 5), extra_max=3, parallel=False, chain_kw=None
     if per_degree:
         # per-degree targets of possibly another kind than the node policy, on some egress degrees
         for i, r in enumerate(roadms):
-            degs = [c['to_node'] for c in connections if c['from_node'] == r['uid'] and not c['to_node'].startswith('trx')]
+            # only degrees whose first element survives auto-design unchanged (a user booster or a fused): a
+            # per-degree key naming a fibre would silently stop matching once design inserts a booster before it
+            degs = [c['to_node'] for c in connections if c['from_node'] == r['uid']
+                    and c['to_node'].startswith(('booster ', 'fused '))]
             for d in degs:
                 if draw(st.integers(0, 5)) == 0:
                     kkey, val = draw(equalization())
